@@ -105,3 +105,14 @@ pub fn server_encode(
     }
     if c.key_len() == 16 { go::<16>(c, server_pw, users, user, ids, addr, payload) } else { go::<32>(c, server_pw, users, user, ids, addr, payload) }
 }
+
+/// Decode several datagrams one after the other with ONE server codec (one context, one user table), as the server's
+/// datagram loop does: what an earlier datagram left behind in caches is there for the later ones.
+pub fn server_decode_seq(c: Cipher, server_pw: &str, users: &[(String, String)], wires: &[Vec<u8>]) -> Vec<Decoded> {
+    let r = if c.key_len() == 16 {
+        with_codec::<16, _>(c, server_pw, users, |codec| wires.iter().map(|w| decode_with(codec, w)).collect::<Vec<_>>())
+    } else {
+        with_codec::<32, _>(c, server_pw, users, |codec| wires.iter().map(|w| decode_with(codec, w)).collect::<Vec<_>>())
+    };
+    r.unwrap_or_else(|e| wires.iter().map(|_| Decoded { got: Got::Err(format!("setup: {e}")), session: None }).collect())
+}
